@@ -55,6 +55,8 @@ type litPt struct {
 	Lo    litOp     `json:"lo"`
 	Hi    litOp     `json:"hi"`
 	Mx    litOp     `json:"mx"`
+	T     string    `json:"t"`
+	O     litOp     `json:"o"`
 }
 
 type litPoint struct {
@@ -64,7 +66,7 @@ type litPoint struct {
 	Ty  string `json:"ty"`
 }
 
-const litPrelude = "package q\ntype MyInt int\ntype S struct { a int; b string }\nvar vi int\nvar vi8 int8\nvar vs string\nvar vmy MyInt\nvar vf float64\nvar va any\nvar vsl []int\nvar varr [2]int\nvar vparr *[2]int\nvar vm map[string]int\nvar vpi *int\n"
+const litPrelude = "package q\ntype MyInt int\ntype S struct { a int; b string }\nvar vi int\nvar vi8 int8\nvar vs string\nvar vmy MyInt\nvar vf float64\nvar va any\nvar vsl []int\nvar varr [2]int\nvar vparr *[2]int\nvar vm map[string]int\nvar vpi *int\nvar vch chan int\n"
 
 func (p litPoint) text() string {
 	e := p.Pt
@@ -108,6 +110,12 @@ func (p litPoint) text() string {
 		return s + "]"
 	case "star":
 		return "*" + e.X.Src
+	case "conv":
+		t := e.T
+		if strings.HasPrefix(t, "*") || strings.HasPrefix(t, "<-") || t == "func()" || strings.HasPrefix(t, "func") {
+			t = "(" + t + ")"
+		}
+		return t + "(" + e.O.Src + ")"
 	}
 	return "?"
 }
@@ -170,6 +178,8 @@ func (p litPoint) class() string {
 		return "slice/" + e.X.Kind + "[" + opc(e.Lo) + ":" + opc(e.Hi) + ":" + opc(e.Mx) + "]"
 	case "star":
 		return "indirection/" + e.X.Kind
+	case "conv":
+		return "conversion/" + e.T + "(" + opc(e.O) + ")"
 	}
 	return e.Kind
 }
@@ -298,7 +308,7 @@ func newLitWorld() *litWorld {
 	w.tS = pkg.NewType("S").InitType(pkg, types.NewStruct([]*types.Var{types.NewField(token.NoPos, pkg.Types, "a", ti, false), types.NewField(token.NoPos, pkg.Types, "b", ts, false)}, nil))
 	arr := types.NewArray(ti, 2)
 	for n, t := range map[string]types.Type{"vi": ti, "vi8": types.Typ[types.Int8], "vs": ts, "vmy": w.tMy, "vf": types.Typ[types.Float64], "va": types.NewInterfaceType(nil, nil),
-		"vsl": types.NewSlice(ti), "varr": arr, "vparr": types.NewPointer(arr), "vm": types.NewMap(ts, ti), "vpi": types.NewPointer(ti)} {
+		"vsl": types.NewSlice(ti), "varr": arr, "vparr": types.NewPointer(arr), "vm": types.NewMap(ts, ti), "vpi": types.NewPointer(ti), "vch": types.NewChan(types.SendRecv, ti)} {
 		pkg.NewVar(token.NoPos, t, n)
 	}
 	return w
@@ -316,6 +326,34 @@ func (w *litWorld) typ(n string) types.Type {
 		return types.NewInterfaceType(nil, nil)
 	}
 	panic("harness: element type " + n)
+}
+
+func (w *litWorld) convType(n string) types.Type {
+	ti := types.Typ[types.Int]
+	par := func(t types.Type) *types.Var { return types.NewParam(token.NoPos, nil, "", t) }
+	switch n {
+	case "*int":
+		return types.NewPointer(ti)
+	case "<-chan int":
+		return types.NewChan(types.RecvOnly, ti)
+	case "chan<- int":
+		return types.NewChan(types.SendOnly, ti)
+	case "chan int":
+		return types.NewChan(types.SendRecv, ti)
+	case "func()":
+		return types.NewSignatureType(nil, nil, nil, nil, nil, false)
+	case "func() int":
+		return types.NewSignatureType(nil, nil, nil, nil, types.NewTuple(par(ti)), false)
+	case "[]int":
+		return types.NewSlice(ti)
+	case "map[string]int":
+		return types.NewMap(types.Typ[types.String], ti)
+	case "any":
+		return types.NewInterfaceType(nil, nil)
+	case "*[2]int":
+		return types.NewPointer(types.NewArray(ti, 2))
+	}
+	panic("harness: conversion target " + n)
 }
 
 func (w *litWorld) push(cb *gogen.CodeBuilder, o litOp) {
@@ -341,6 +379,7 @@ func (w *litWorld) push(cb *gogen.CodeBuilder, o litOp) {
 }
 
 type litG struct {
+	text     string
 	rejected bool
 	msg      string
 	ty       string
@@ -424,6 +463,10 @@ func (w *litWorld) build(p litPoint) (g litG) {
 	case "star":
 		pushX()
 		cb.Star()
+	case "conv":
+		cb.Typ(w.convType(e.T))
+		w.push(cb, e.O)
+		cb.Call(1)
 	default:
 		panic("harness: literal point kind " + e.Kind)
 	}
@@ -435,6 +478,12 @@ func (w *litWorld) build(p litPoint) (g litG) {
 	}
 	if el.Type != nil {
 		g.ty = litNormType(types.TypeString(el.Type, func(p *types.Package) string { return "" }))
+	}
+	if x, ok := el.Val.(ast.Expr); ok {
+		var buf strings.Builder
+		if err := gogen.VerifFormatNode(&buf, x); err == nil {
+			g.text = buf.String()
+		}
 	}
 	return g
 }
@@ -512,6 +561,19 @@ func litCheck(run *ev.Run, pts []litPoint, prop string) int {
 			case p.Ok && !g.rejected && g.ty != litNormType(p.Ty):
 				if prop == "C03" {
 					run.Fail(fmt.Sprintf("type %s reported as %s [%s]", p.Ty, g.ty, p.Pt.Kind), desc, p)
+				}
+			}
+			// C02: the emitted expression is the same expression (parses back to the same tree as the source text)
+			if prop == "C02" && p.Ok && !g.rejected && g.fault == "" && g.text != "" {
+				want, err1 := parser.ParseExpr(p.text())
+				got, err2 := parser.ParseExpr(g.text)
+				switch {
+				case err1 != nil:
+					run.Infra(fmt.Errorf("reference text %q does not parse: %v", p.text(), err1))
+				case err2 != nil:
+					run.Fail("emitted-expression-does-not-parse/"+p.coarse(), fmt.Sprintf("`%s` is emitted as `%s`: %v", p.text(), g.text, err2), p)
+				case canonUntyped(want) != canonUntyped(got):
+					run.Fail("not-reproduced/"+p.coarse(), fmt.Sprintf("`%s` is emitted as `%s`: %s", p.text(), g.text, canonDiff(canonUntyped(want), canonUntyped(got))), p)
 				}
 			}
 		}
